@@ -7,7 +7,7 @@ import ast
 from ..core import Ctx, RuleResult, finding, short, walk_no_nested
 from ..model import AnalysisError, norm
 from ..mutants import Mut
-from ..rules import accum
+from ..rules import accum, loopfresh
 from ..rules.defuse import DefUse
 from ..rules.exc import ExcEngine
 from ..rules.util import callee_name, cfg_of, nodes_where
@@ -388,7 +388,8 @@ def run(ctx: Ctx):
     r8 = c17.rule_palette_order(ctx)
     r8.clause = "C04.8"
     r9 = accum.run_accum(ctx.p, "C04.9", "C04", floor=1)
-    return [rule_triple(ctx), rule_last_row_triple(ctx), rule_cursor(ctx), rule_repaint(ctx), rule_charset_first(ctx), rule_html(ctx), rule_html_cursor_columns(ctx), r6, r7, r8, r9]
+    r11 = loopfresh.run_loopfresh(ctx.p, "C04.11", "C04", floor=3)
+    return [rule_triple(ctx), rule_last_row_triple(ctx), rule_cursor(ctx), rule_repaint(ctx), rule_charset_first(ctx), rule_html(ctx), rule_html_cursor_columns(ctx), r6, r7, r8, r9, r11]
 
 
 _RW = "urwid/display/_raw_display_base.py"
